@@ -50,7 +50,7 @@ impl Config {
 #[verifier::external_body] pub fn handle_run(config: &core::Config, matches: &ArgMatches, output_options: &OutputOptions<'_>, work_path: &path::Path, Tracked(w): Tracked<&mut World>) -> (r: Result<i32, MonorailError>) requires old(w).checked, ensures final(w).acted, final(w).checked == old(w).checked { unimplemented!() }
 #[verifier::external_body] pub fn handle_log_tail(config: &core::Config, matches: &ArgMatches, output_options: &OutputOptions<'_>, Tracked(w): Tracked<&mut World>) -> (r: Result<i32, MonorailError>) requires old(w).checked, ensures final(w).acted, final(w).checked == old(w).checked { unimplemented!() }
 #[verifier::external_body] pub fn handle_log_show(config: &core::Config, matches: &ArgMatches, output_options: &OutputOptions<'_>, work_path: &path::Path, Tracked(w): Tracked<&mut World>) -> (r: Result<i32, MonorailError>) requires old(w).checked, ensures final(w).acted, final(w).checked == old(w).checked { unimplemented!() }
-#[verifier::external_body] pub fn handle_out_delete(config: &core::Config, matches: &ArgMatches, output_options: &OutputOptions<'_>, Tracked(w): Tracked<&mut World>) -> (r: Result<i32, MonorailError>) requires old(w).checked, ensures final(w).acted, final(w).checked == old(w).checked { unimplemented!() }
+#[verifier::external_body] pub fn handle_out_delete(config: &core::Config, matches: &ArgMatches, output_options: &OutputOptions<'_>, work_path: &path::Path, Tracked(w): Tracked<&mut World>) -> (r: Result<i32, MonorailError>) requires old(w).checked, ensures final(w).acted, final(w).checked == old(w).checked { unimplemented!() }
 
 pub const HANDLE_OK: i32 = 0;
 //!const src/api/cli.rs CMD_CONFIG
@@ -197,7 +197,7 @@ pub fn handle<'a>(
             }
             if let Some(out_matches) = matches.subcommand_matches(CMD_OUT) {
                 if let Some(delete_matches) = out_matches.subcommand_matches(CMD_DELETE) {
-                    return handle_out_delete(&config, delete_matches, output_options, Tracked(w));
+                    return handle_out_delete(&config, delete_matches, output_options, work_path, Tracked(w));
                 }
             }
             Err(MonorailError::from("Command not recognized"))
